@@ -907,6 +907,52 @@ def has_sym(a):
     return False
 
 
+class SArr(np.ndarray):
+    """Object array born in symbolic mode.  numpy offers no hook for the METHOD `.astype(float)` (it calls float() on every entry); on this
+    subclass a conversion to a float type keeps an array that still holds symbols as it is (the symbolic stand-in of 'these are real numbers').
+    Every other behaviour is ndarray's; the subclass propagates through slicing and ufuncs like any ndarray subclass."""
+
+    ASTYPE_KEPT = [0]
+
+    def astype(self, dtype, *a, **k):
+        try:
+            is_float = np.dtype(dtype).kind == "f"
+        except TypeError:
+            is_float = False
+        base = np.asarray(self)
+        if is_float and base.dtype == object and has_sym(base):
+            SArr.ASTYPE_KEPT[0] += 1
+            return self.copy() if k.get("copy", True) else self
+        return base.astype(dtype, *a, **k)
+
+
+def _defer_to_foreign_subclass(opname):
+    """A plain ndarray on the left of `x (op) y` lets Python try y.__rop__ first whenever type(y) is a proper subclass of ndarray that overrides it.
+    SArr is a sibling of such subclasses, not their base, so Python would not: the forward operators return NotImplemented for a foreign ndarray
+    subclass on the right and Python then calls its reflected operator - the dispatch a plain ndarray gets."""
+    base = getattr(np.ndarray, opname)
+
+    def op(self, other):
+        if isinstance(other, np.ndarray) and not isinstance(other, SArr) and type(other) is not np.ndarray:
+            return NotImplemented
+        return base(self, other)
+
+    op.__name__ = opname
+    return op
+
+
+for _nm in ("__add__", "__sub__", "__mul__", "__truediv__", "__floordiv__", "__mod__", "__pow__", "__matmul__", "__lt__", "__le__", "__gt__", "__ge__", "__eq__", "__ne__", "__and__", "__or__", "__xor__"):
+    setattr(SArr, _nm, _defer_to_foreign_subclass(_nm))
+SArr.__hash__ = None
+
+
+def sarr(a):
+    """view of an object ndarray as SArr (other arrays / subclasses are returned unchanged)"""
+    if type(a) is np.ndarray and a.dtype == object:
+        return a.view(SArr)
+    return a
+
+
 def sym_array(name, shape, lo=-1, hi=1, shadows=None):
     """Array of fresh input variables name[i,j,...]."""
     shape = (shape,) if isinstance(shape, int) else tuple(shape)
